@@ -73,3 +73,9 @@ CLAIMS["C18"] = (
     "Decides rules R18.1-R18.5. Not decided: behaviour for every size/content (e.g. empty datagrams through UDPAssociateWrapper.ReadFrom), loss in the UDP legs." + COMMON_NOTE,
     "wire-table extraction, call-site inventory of stream reads, CFG reachability on error edges, provenance (aliasing) slices on go/ssa",
     "3/C18")
+
+CLAIMS["C20"] = (
+    "Structural rules over configuration handling: both merge functions are exhaustive over the generated message types and wire each field from the same field of patch/stored config under a nil test of the patch's field; share-link writer and reader agree on keys, schemes and alphabet and take credentials verbatim from net/url; the server file is written only by StoreServerConfig after hashing, and HashUserPassword has no feasible path that keeps a plaintext when asked not to; a patch reaches a store only merged into the loaded/fetched configuration and fully validated (local apply functions and the CLI's RPC path); constant-bound string slices are guarded; one write per store.",
+    "Decides rules R20.1-R20.6. Not decided: round-trip equality for every field content (URL escaping, base64, JSON/protobuf are library behaviour), start-up of a stored configuration, run-time panics beyond the constant-bound slice pattern." + COMMON_NOTE,
+    "exhaustiveness over go/types struct fields, provenance slices, dominance, path-sensitive reachability, call-site inventories on go/ssa",
+    "3/C20")
